@@ -358,12 +358,134 @@ def check_dpd_wiring(ctx: Check, tree: Tree) -> None:
                     )
 
 
+def _factors(node: ast.AST) -> list[ast.AST]:
+    if isinstance(node, ast.BinOp) and isinstance(node.op, ast.Mult):
+        return _factors(node.left) + _factors(node.right)
+    return [node]
+
+
+def check_dpd_summand(ctx: Check, tree: Tree) -> None:
+    """R-SUMMAND: every term that reaches the summand of the PoolSum over the primed helicities
+    is  base[primed helicities] * d(state 0) * d(state 1) * d(state 2) * d(state 3).
+    A term that does not carry a summation index is added once per index combination (factor
+    = product of the pool sizes); a term without its four rotations is not aligned."""
+    fn = tree.func("ampform.helicity.align.dpd::_formulate_aligned_amplitude")
+    rd = RD(fn.node)
+    pools = [n for n in walk_function(fn.node) if isinstance(n, ast.Call) and tree.callee(n, fn) == "ampform.sympy::PoolSum"]
+    if len(pools) != 1:
+        raise AnalysisError(f"{fn.qual}: expected one PoolSum, found {len(pools)}")
+    pool = pools[0]
+    bound = []
+    for tup in pool.args[1:]:
+        if not (isinstance(tup, ast.Tuple) and len(tup.elts) == 2 and isinstance(tup.elts[0], ast.Name)):
+            raise AnalysisError(f"{fn.qual}: PoolSum index shape changed: {unparse(tup)}")
+        bound.append(tup.elts[0].id)
+    summand = pool.args[0]
+    if not (isinstance(summand, ast.Call) and unparse(summand.func) in {"sp.Add", "Add", "sum"} and len(summand.args) == 1):
+        raise AnalysisError(f"{fn.qual}: PoolSum summand is `{unparse(summand)[:60]}`, not sp.Add(*terms)")
+    arg = summand.args[0].value if isinstance(summand.args[0], ast.Starred) else summand.args[0]
+    if not isinstance(arg, ast.Name):
+        raise AnalysisError(f"{fn.qual}: summand terms are not collected in a local list")
+    acc = arg.id
+    terms: list[ast.AST] = []
+    for d in rd.closure(rd.reaching(arg)):
+        if d.name != acc:
+            continue
+        node = d.node
+        if isinstance(node, ast.AnnAssign) or (isinstance(node, ast.Assign) and d.kind == "assign"):
+            val = node.value
+            if not isinstance(val, (ast.List, ast.Tuple)):
+                raise AnalysisError(f"{fn.qual}: `{acc}` initialised with `{unparse(val)[:50]}`")
+            terms += val.elts
+        elif isinstance(node, ast.AugAssign) and isinstance(node.op, ast.Add) and isinstance(node.value, (ast.List, ast.Tuple)):
+            terms += node.value.elts
+        elif isinstance(node, ast.Call) and isinstance(node.func, ast.Attribute) and node.func.attr == "append" and len(node.args) == 1:
+            terms.append(node.args[0])
+        elif isinstance(node, ast.Call) and isinstance(node.func, ast.Attribute) and node.func.attr == "extend" and len(node.args) == 1 and isinstance(node.args[0], (ast.List, ast.Tuple)):
+            terms += node.args[0].elts
+        elif isinstance(node, ast.Expr) and isinstance(node.value, ast.Call):
+            c = node.value
+            if isinstance(c.func, ast.Attribute) and c.func.attr == "append" and len(c.args) == 1:
+                terms.append(c.args[0])
+            elif isinstance(c.func, ast.Attribute) and c.func.attr == "extend" and len(c.args) == 1 and isinstance(c.args[0], (ast.List, ast.Tuple)):
+                terms += c.args[0].elts
+            else:
+                raise AnalysisError(f"{fn.qual}: `{acc}` modified by `{unparse(c)[:60]}`")
+        else:
+            raise AnalysisError(f"{fn.qual}: `{acc}` defined by an unknown shape `{unparse(node)[:60]}` ({d.kind})")
+    if not terms:
+        raise AnalysisError(f"{fn.qual}: no term reaches the PoolSum summand")
+    for n_t, term in enumerate(terms):
+        problems = []
+        facs = _factors(term)
+        bases = []
+        states = []
+        for f in facs:
+            if isinstance(f, ast.Subscript) and isinstance(f.value, ast.Name) and any(
+                d.value is not None and "create_amplitude_base" in unparse(d.value) for d in rd.reaching(f.value)
+            ):
+                bases.append(f)
+            elif isinstance(f, ast.Call) and isinstance(f.func, ast.Name) and any(
+                d.value is not None and "_DPDAlignmentWignerGenerator" in unparse(d.value) for d in rd.reaching(f.func)
+            ):
+                if len(f.args) >= 4 and isinstance(f.args[3], ast.Constant):
+                    states.append(f.args[3].value)
+                    used = {a.id for a in f.args[1:3] if isinstance(a, ast.Name)}
+                    k = f.args[3].value
+                    if isinstance(k, int) and 0 <= k < len(bound) and bound[k] not in used:
+                        problems.append(f"rotation of state {k} does not carry the summation index {bound[k]}")
+            else:
+                problems.append(f"unexpected factor `{unparse(f)[:50]}`")
+        if len(bases) != 1:
+            problems.append(f"{len(bases)} amplitude-base factors")
+        else:
+            sl = bases[0].slice
+            idx = [e.id if isinstance(e, ast.Name) else None for e in sl.elts] if isinstance(sl, ast.Tuple) else [None]
+            if idx != bound:
+                problems.append(f"the amplitude base is indexed by {idx}, not by the summation indices {bound}: the term is added once per combination of the indices it does not carry")
+        if sorted(states, key=str) != [0, 1, 2, 3]:
+            problems.append(f"rotations for outer states {states}, not exactly one each for 0, 1, 2, 3")
+        ctx.verdict(not problems, "R-SUMMAND", f"{fn.qual}::term::{canon_text(term)}", tree.loc(term),
+                    f"DPD summand term `{unparse(term)[:70]}...` = base[{', '.join(bound)}] * d_0 * d_1 * d_2 * d_3 (every summation index carried, every outer state rotated once)",
+                    problems or None)
+
+
+def canon_text(node: ast.AST) -> str:
+    import re
+
+    return re.sub(r"\s+", "", unparse(node))[:80]
+
+
+def check_spin_range_not_cached_mutable(ctx: Check, tree: Tree) -> None:
+    """R-CACHE: "exactly -s..s" must hold for the k-th call as for the first: if any function of
+    the alignment package hands out a memoised mutable object (a cached spin range), nobody
+    may write into it (create_spin_range itself removes 0 for massless states)."""
+    from .c06 import AliasFlow, memoised_functions, mutable_result
+
+    pkg = "ampform.helicity.align"
+    sources = {f.qual: f"memoised {f.qual}" for f in memoised_functions(tree) if f.qual.startswith(pkg) and mutable_result(f)}
+    if not sources:
+        ctx.ok("R-CACHE", "src/ampform/helicity/align", "no memoised function of helicity.align returns a mutable container (nothing shared between calls can be written)")
+        return
+    flow = AliasFlow(tree, sources)
+    flow.fixpoint()
+    bad = [(fn, node, origin) for fn, node, origin in flow.mutations() if fn.qual not in sources]
+    for fn, node, origin in bad:
+        ctx.violation("R-CACHE", f"{fn.qual}::{unparse(node)[:60]}::mutates-cached", tree.loc(node),
+                      f"{fn.qual}: `{unparse(node)[:60]}` writes into an object that aliases a memoised result ({origin.split(' -> ')[0]})",
+                      "the cached container is shared by all later calls: e.g. a spin range that lost its 0 for a massless state is then also used for massive states of that spin")
+    if not bad:
+        ctx.ok("R-CACHE", "src/ampform/helicity/align", f"the {len(sources)} memoised mutable results of helicity.align are never written")
+
+
 def run(ctx: Check, tree: Tree) -> None:
     ctx.decided += [
         "no `.remove(x)` reachable in the package can raise: each is dominated by a membership test, inside a handler, or covered by a recorded structural invariant (R-GUARD)",
         "the PoolSum of a helicity/Wigner rotation ranges over create_spin_range(s) of the same s that is j of its Wigner-D, and every caller passes spin and masslessness of the rotated state (R-WIRING)",
         "create_spin_range loops from -s in steps of +1 while <= s (R-RANGE)",
         "DPD alignment: spin, helicity symbols, state index and pool of every Wigner-d refer to the same outer state (R-WIRING)",
+        "no memoised mutable result of helicity.align (e.g. a cached spin range) is written by any caller (R-CACHE)",
+        "DPD alignment: every term reaching the PoolSum summand is base[summation indices] times one rotation per outer state (R-SUMMAND)",
     ]
     ctx.not_decided += [
         "aligned intensity == unaligned intensity at every event (numerical)",
@@ -374,3 +496,5 @@ def run(ctx: Check, tree: Tree) -> None:
     ctx.section(check_wiring, ctx, tree)
     ctx.section(check_spin_range, ctx, tree)
     ctx.section(check_dpd_wiring, ctx, tree)
+    ctx.section(check_dpd_summand, ctx, tree)
+    ctx.section(check_spin_range_not_cached_mutable, ctx, tree)
